@@ -94,8 +94,10 @@ CHECKS["C02"] = dict(
          "Permutation out L <-> (NoDup out and In p out <-> member p) (C02_checker_sound_complete, C02_checker_exactly_once).  Each run builds grammars "
          "and weights with the real code, runs heap / bucket / bee / beap / constant-delay search to exhaustion under a time limit, and hands the "
          "grammar's own rule table and the full output to the extracted checker; non-termination = time limit exceeded.  Algorithmic core "
-         "(Enum/Frontier.v, FrontierProofs.v, FrontierSched.v; an abstraction of the index-tuple expansion of bee/beap/constant-delay search, NOT tied to "
-         "the code by correspondence): unique parent, no duplicate push, breadth-first levels list every tuple once (C02_frontier_*), and for EVERY pop "
+         "(Enum/Frontier.v, FrontierProofs.v, FrontierSched.v; an abstraction of the index-tuple expansion of bee/beap/constant-delay search; tied to "
+         "bee search by correspondence: every run records, for the first 300 combinations bee search pops, the combinations it pushes for each "
+         "(_add_combination_ wrapped in the harness, no repo hook) and compares them with the extracted Frontier.children; beap and constant-delay "
+         "search push inline and are not tied): unique parent, no duplicate push, breadth-first levels list every tuple once (C02_frontier_*), and for EVERY pop "
          "order of the queue (frontier taken up to permutation, any number of steps): nothing pushed or popped twice, nothing lost, and an empty queue "
          "means every tuple of the arity was popped exactly once (C02_frontier_any_order_no_duplicates / _nothing_lost / _exhaustive)."),
    note=ENUM_NOTE + "Known findings: heap/bucket search are incomplete on size-bounded (tree-traversing) grammars; bee search with non-uniform weights blows up exponentially (treated as practical non-termination, prefix still checked).",
